@@ -366,7 +366,7 @@ fn gen_runcfg(rng: &mut Rng, stream: bool, shared_only: bool) -> RunCfg {
     }
     if c.has_opts() {
         c.rev = rng.chance(40);
-        if cfg!(feature = "intr") && c.api != "stream_with" {
+        if cfg!(feature = "intr") {
             c.strat = match rng.below(10) {
                 0 | 1 => Strat::Non,
                 2 => Strat::Ignore,
@@ -541,7 +541,7 @@ impl GenChooser {
 struct Session {
     cfgs: Vec<RunCfg>,
     coop: bool,
-    auto: bool,
+    auto: u8,
     script: Option<Vec<Vec<Act>>>, // None = generate
 }
 
@@ -632,11 +632,11 @@ fn gen_main(seed: u64, count: usize, kinds: &str, maxn: usize) {
                 let sb = has("stream") && rng.chance(30);
                 let a = gen_runcfg(&mut rng, sa, true);
                 let b = gen_runcfg(&mut rng, sb, true);
-                sessions.push(Session { cfgs: vec![a, b], coop: rng.chance(50), auto: false, script: None });
+                sessions.push(Session { cfgs: vec![a, b], coop: rng.chance(50), auto: 0, script: None });
             } else if has("stream") && (!has("run") || pick < 35) {
-                { let c = gen_runcfg(&mut rng, true, false); sessions.push(Session { cfgs: vec![c], coop: rng.chance(50), auto: false, script: None }); }
+                { let c = gen_runcfg(&mut rng, true, false); sessions.push(Session { cfgs: vec![c], coop: rng.chance(50), auto: 0, script: None }); }
             } else if has("run") {
-                { let c = gen_runcfg(&mut rng, false, false); sessions.push(Session { cfgs: vec![c], coop: rng.chance(50), auto: rng.chance(12), script: None }); }
+                { let c = gen_runcfg(&mut rng, false, false); let auto = if rng.chance(12) { 1 + rng.below(3) as u8 } else { 0 }; sessions.push(Session { cfgs: vec![c], coop: rng.chance(50), auto, script: None }); }
             }
         }
         let midpoll = has("midpoll");
@@ -693,7 +693,7 @@ fn replay_main(path: &str) {
                     fails = parse_csv(f);
                 }
             } else if l.starts_with("session") {
-                sessions.push(Session { cfgs: vec![], coop: l.contains("coop=1"), auto: l.contains("auto=1"), script: Some(vec![]) });
+                sessions.push(Session { cfgs: vec![], coop: l.contains("coop=1"), auto: l.split(' ').find_map(|t| t.strip_prefix("auto=")).and_then(|v| v.parse().ok()).unwrap_or(0), script: Some(vec![]) });
             } else if l.starts_with("run ") {
                 if let (Some(s), Some((_, cfg))) = (sessions.last_mut(), RunCfg::parse(l)) {
                     s.cfgs.push(cfg);
@@ -1005,7 +1005,7 @@ fn enum_main(maxn: usize, part: usize, parts: usize, streams: bool) {
                 let (g, built) = build(b);
                 out.push(built);
                 if let Some(mut g) = g {
-                    session(&mut g, std::slice::from_ref(cfg), (gi + ci) % 2 == 1, false, &mut out, &mut |v, step| ch.choose(v, step));
+                    session(&mut g, std::slice::from_ref(cfg), (gi + ci) % 2 == 1, 0, &mut out, &mut |v, step| ch.choose(v, step));
                 }
                 out.push("end".into());
                 for l in out {
@@ -1060,6 +1060,36 @@ fn enumb_main(maxn: usize, full_decls: bool, part: usize, parts: usize) {
     };
     let mut idx = 0usize;
     let mut rng = Rng(1);
+    // three unordered functions x every declaration over THREE data types ({none,r,w}^3 each): the
+    // smallest space with conflict rings (f0 r1 w2, f1 r0 w1, f2 r2 w0)
+    if maxn >= 3 {
+        for d in 0..19683usize {
+            idx += 1;
+            if idx % parts != part {
+                continue;
+            }
+            let mut ops = vec![];
+            let mut dd = d;
+            for _ in 0..3 {
+                let mut r = vec![];
+                let mut w = vec![];
+                for ty in 0..3 {
+                    match dd % 3 {
+                        1 => r.push(ty),
+                        2 => w.push(ty),
+                        _ => {}
+                    }
+                    dd /= 3;
+                }
+                ops.push(Op::Fn { tag: 0, r, w });
+            }
+            let mut out = vec![];
+            run_case(&mut out, &format!("b3t_{}", d), "enumb3types", &ops, None, &[], vec![], &mut rng, false, false);
+            for l in out {
+                let _ = writeln!(lock, "{}", l);
+            }
+        }
+    }
     for n in 0..=maxn {
         let pairs: Vec<(usize, usize)> = (0..n).flat_map(|a| (0..n).map(move |b| (a, b))).collect();
         let nd = decl_opts.len().pow(n as u32);
@@ -1121,7 +1151,7 @@ fn sweep_main(sizes: &str, stride: usize) {
         while k <= n {
             let api = apis[(k / stride.max(1)) % apis.len()].to_string();
             let cfg = RunCfg { api, rev: k % 2 == 0, limit: None, strat: Strat::PollN(k as u64), incl: k % 3 != 0, ord: (k % 6) as u8 };
-            sessions.push(Session { cfgs: vec![cfg], coop: true, auto: true, script: Some(vec![vec![Act::Intr { run: 0 }], vec![Act::Poll { run: 0 }], vec![Act::Poll { run: 0 }], vec![Act::Abort { run: 0 }]]) });
+            sessions.push(Session { cfgs: vec![cfg], coop: true, auto: 1 + ((k / 7) % 3) as u8, script: Some(vec![vec![Act::Intr { run: 0 }], vec![Act::Poll { run: 0 }], vec![Act::Poll { run: 0 }], vec![Act::Abort { run: 0 }]]) });
             k += stride.max(1);
         }
         let mut out = vec![];
